@@ -18,29 +18,48 @@ from harness import common
 EVENTS = {
     1: ('K1', 'KEY(1)', 'KEY(1)', 1000),
     2: ('K2', 'KEY(2)', 'KEY(2)', 2000),
+    5: ('K5', 'KEY(5)', 'KEY(5)', 1100),             # F5
+    11: ('K11', 'KEY(11)', 'KEY(11)', 1200),         # cursor up
+    15: ('K15', 'KEY(15)', 'KEY(15)', 1300),         # user defined: 'a'
+    16: ('K16', 'KEY(16)', 'KEY(16)', 1400),         # user defined: Ctrl+'a'
     21: ('TIMER', 'TIMER', 'TIMER(1)', 3000),
+    22: ('PLAY', 'PLAY', 'PLAY(2)', 3500),
     23: ('PEN', 'PEN', 'PEN', 4000),
     24: ('STRIG0', 'STRIG(0)', 'STRIG(0)', 4500),
+    25: ('STRIG2', 'STRIG(2)', 'STRIG(2)', 4600),
+    27: ('STRIG6', 'STRIG(6)', 'STRIG(6)', 6500),     # handler in the tail block that RENUM moves
     29: ('COM1', 'COM(1)', 'COM(1)', 4800),
+    30: ('COM2', 'COM(2)', 'COM(2)', 4900),
 }
-TRACKED = [1, 2, 21, 23, 24, 29]          # order of Events.v `tracked`
+TRACKED = [1, 2, 5, 11, 15, 16, 21, 22, 23, 24, 25, 27, 29, 30]          # order of Events.v `tracked`
+COMS = (29, 30)
 COM = 29
 TIMER = 21
+PLAY = 22
+PLAY_N = 2
+USER_KEYS = {15: 'KEY 15,CHR$(0)+CHR$(30)', 16: 'KEY 16,CHR$(4)+CHR$(30)'}
 ERR_LINE = 5000
 SUB_LINE = 6000
+TAIL_LINE = 6500      # the last two program lines (handler of STRIG(6)) sit at 6500/6501 or 6600/6601
+TAIL_ALT = 6600
 
 # program statements: kind -> (model action code, takes event)
 K_OBS, K_OCC, K_CON, K_ON, K_OFF, K_STOP, K_GS, K_GS0, K_INST, K_BND = range(10)
 K_GOSUB, K_RET, K_RETTO, K_ONERR, K_ONERR0, K_ERR, K_RES, K_RESTO, K_END, K_IDLE, K_START, K_RUN = range(10, 22)
 K_PT = 22          # Install; Poll; Boundary o   (K_BND itself is Poll; Boundary o)
 K_ELAPSE = 23
+K_CLEAR, K_NEW, K_RENUM, K_PLAYQ, K_PLAYTRIG, K_KEYPRESS, K_DEFKEY = range(24, 31)
 STMT_KINDS = {
     'on': K_ON, 'off': K_OFF, 'stop': K_STOP, 'gs': K_GS, 'gs0': K_GS0,
     'gosub': K_GOSUB, 'ret': K_RET, 'retto': K_RETTO, 'onerr': K_ONERR, 'onerr0': K_ONERR0,
     'err': K_ERR, 'res': K_RES, 'resto': K_RESTO, 'end': K_END, 'start': K_START, 'run': K_RUN,
+    'clear': K_CLEAR, 'new': K_NEW, 'renum': K_RENUM, 'renum2': K_RENUM, 'chain': K_RUN, 'defkey': K_DEFKEY,
 }
-ENV_KINDS = ('occ', 'occi', 'con')
+ENV_KINDS = ('occ', 'occi', 'con', 'playq')
 EV_KINDS = ('on', 'off', 'stop', 'gs', 'gs0')
+PLAIN_KINDS = ('gosub', 'ret', 'retto', 'onerr', 'onerr0', 'err', 'res', 'resto', 'end', 'start', 'run',
+               'clear', 'new', 'renum', 'renum2', 'chain')
+DISPATCH = 30      # targets per ON .. GOTO line
 
 
 def stmt_text(kind, e):
@@ -48,10 +67,17 @@ def stmt_text(kind, e):
         name, sw, on, line = EVENTS[e]
         return {'on': '%s ON' % sw, 'off': '%s OFF' % sw, 'stop': '%s STOP' % sw,
                 'gs': 'ON %s GOSUB %d' % (on, line), 'gs0': 'ON %s GOSUB 0' % on}[kind]
+    if kind == 'defkey':
+        return USER_KEYS[e]
     return {'gosub': 'GOSUB %d' % SUB_LINE, 'ret': 'RETURN', 'retto': 'RETURN 100',
             'onerr': 'ON ERROR GOTO %d' % ERR_LINE, 'onerr0': 'ON ERROR GOTO 0', 'err': 'ERROR 5',
             'res': 'RESUME NEXT', 'resto': 'RESUME 100', 'end': 'END', 'start': 'GOTO 100',
-            'run': 'RUN 100'}[kind]
+            'run': 'RUN 100', 'clear': 'CLEAR', 'new': 'NEW',
+            # renumber only the tail block (STRIG(6) handler): 6500 -> 6600 and back; the trap line of
+            # STRIG(6) and the references in the program text are remapped by RENUM
+            'renum': 'RENUM %d,%d,1' % (TAIL_ALT, TAIL_LINE),
+            'renum2': 'RENUM %d,%d,1' % (TAIL_LINE, TAIL_ALT),
+            'chain': 'CHAIN "D",100'}[kind]
 
 
 def build_program():
@@ -59,9 +85,17 @@ def build_program():
     for e in TRACKED:
         for k in EV_KINDS:
             stmts.append((k, e))
-    for k in ('gosub', 'ret', 'retto', 'onerr', 'onerr0', 'err', 'res', 'resto', 'end', 'start', 'run'):
+    for k in PLAIN_KINDS:
         stmts.append((k, 0))
-    lines = ['100 REM', '110 ON A% GOTO ' + ','.join(str(200 + 2 * i) for i in range(len(stmts)))]
+    for e in sorted(USER_KEYS):
+        stmts.append(('defkey', e))
+    lines = ['100 REM']
+    nd = (len(stmts) + DISPATCH - 1) // DISPATCH
+    assert nd <= 3
+    for d in range(nd):
+        chunk = range(d * DISPATCH, min(len(stmts), (d + 1) * DISPATCH))
+        lines.append('%d ON %s%% GOTO ' % (110 + d, 'ABC'[d]) + ','.join(str(200 + 2 * i) for i in chunk))
+    lines.append('%d GOTO 100' % (110 + nd))
     index = {}
     line_action = {}
     for i, (k, e) in enumerate(stmts):
@@ -70,19 +104,21 @@ def build_program():
         index[(k, e)] = i + 1
         line_action[200 + 2 * i] = (k, e)
     markers = {}
+    rest = []
     for e in TRACKED:
         name, _, _, line = EVENTS[e]
-        lines.append('%d PRINT "<%s>"' % (line, name))
-        lines.append('%d GOTO 100' % (line + 1))
+        rest.append((line, 'PRINT "<%s>"' % name))
+        rest.append((line + 1, 'GOTO 100'))
         markers[line] = e
-    lines.append('%d PRINT "<H>"' % ERR_LINE)
-    lines.append('%d GOTO 100' % (ERR_LINE + 1))
-    lines.append('%d PRINT "<G>"' % SUB_LINE)
-    lines.append('%d GOTO 100' % (SUB_LINE + 1))
-    return '\n'.join(lines) + '\n', index, line_action, markers
+    rest += [(ERR_LINE, 'PRINT "<H>"'), (ERR_LINE + 1, 'GOTO 100'), (SUB_LINE, 'PRINT "<G>"'),
+             (SUB_LINE + 1, 'GOTO 100')]
+    lines += ['%d %s' % x for x in sorted(rest)]
+    assert sorted(rest)[-1][0] == TAIL_LINE + 1
+    markers[TAIL_ALT] = markers[TAIL_LINE]
+    return '\n'.join(lines) + '\n', index, line_action, markers, nd
 
 
-PROGRAM, STMT_INDEX, LINE_ACTION, MARKER_LINES = build_program()
+PROGRAM, STMT_INDEX, LINE_ACTION, MARKER_LINES, NDISPATCH = build_program()
 
 
 class FakeClock(object):
@@ -120,6 +156,8 @@ class Replayer(object):
         if st is None:
             return
         k, e = st
+        if e == PLAY and k in ('gs', 'gs0'):
+            self.emit(K_PLAYTRIG, PLAY_N)        # ON PLAY(n) GOSUB: set_trigger(n), then set_jump
         self.emit(STMT_KINDS[k], e)
         self.log.append(('stmt', k, e))
 
@@ -131,7 +169,7 @@ class Replayer(object):
         if self.queued:
             self.emit(K_INST)
             for e in self.queued:
-                self.emit(K_OCC, e)
+                self.emit(K_KEYPRESS if e in USER_KEYS else K_OCC, e)
                 self.log.append(('occ', e, True))
             self.queued = []
             self.emit(K_BND, packed)     # Poll; Boundary
@@ -140,18 +178,20 @@ class Replayer(object):
         self.log.append(('boundary',))
 
     # -- reading the implementation state
-    def code_of(self, handler):
+    def handlers(self):
         ev = self.impl.basic_events
-        table = [(ev.key[0], 1), (ev.key[1], 2), (ev.timer, 21), (ev.pen, 23), (ev.strig[0], 24),
-                 (ev.com[0], 29)]
-        for h, c in table:
+        return {1: ev.key[0], 2: ev.key[1], 5: ev.key[4], 11: ev.key[10], 15: ev.key[14], 16: ev.key[15],
+                21: ev.timer, 22: ev.play, 23: ev.pen, 24: ev.strig[0], 25: ev.strig[1], 27: ev.strig[3],
+                29: ev.com[0], 30: ev.com[1]}
+
+    def code_of(self, handler):
+        for c, h in self.handlers().items():
             if h is handler:
                 return c
         return 31    # a handler object that no longer belongs to BasicEvents (stale) or is untracked
 
     def handler_of(self, code):
-        ev = self.impl.basic_events
-        return {1: ev.key[0], 2: ev.key[1], 21: ev.timer, 23: ev.pen, 24: ev.strig[0], 29: ev.com[0]}[code]
+        return self.handlers()[code]
 
     def stack_codes(self):
         res = []
@@ -176,7 +216,7 @@ class Replayer(object):
         frames = 0
         for rm, c in reversed(st):
             frames = frames * 64 + 2 * c + (1 if rm else 0)
-        out = [flags, glob, frames]
+        out = [flags, glob, frames, ev.play.last + 64 * ev.play.trig]
         self.emit(K_OBS)
         self.obs += out
         self.log.append(('state', {'run': bool(it.run_mode), 'ehm': bool(it.error_handle_mode),
@@ -208,17 +248,25 @@ class Replayer(object):
     def do_env(self, kind, e, idle):
         from pcbasic.basic.base import signals, scancode
         q = self.impl.queues.inputs
+        if kind == 'playq':
+            # number of notes waiting in the background music queue (fake Sound.tones_waiting)
+            self.pq[0] = e
+            self.emit(K_PLAYQ, e)
+            self.log.append(('playq', e))
+            return
         if kind == 'con':
-            if e == COM:
-                self.com_level[0] = False
+            if e in COMS:
+                self.com_level[e] = False
             self.emit(K_CON, e)
             self.log.append(('consume', e))
             return
-        if e == COM:
-            self.com_level[0] = True
+        if e in COMS:
+            self.com_level[e] = True
             self.emit(K_OCC, e)
             self.log.append(('occ', e, True))
             return
+        if e == PLAY:
+            return      # PLAY occurrences come from the queue length only
         if e == TIMER:
             # the period (1 s) runs out on the fake clock
             self.clock.t += 2000
@@ -226,15 +274,18 @@ class Replayer(object):
             self.log.append(('tick',))
             return
         sig = {1: (signals.KEYB_DOWN, (u'', scancode.F1, [])), 2: (signals.KEYB_DOWN, (u'', scancode.F2, [])),
-               23: (signals.PEN_DOWN, (1, 1)), 24: (signals.STICK_DOWN, (0, 0))}[e]
+               5: (signals.KEYB_DOWN, (u'', scancode.F5, [])), 11: (signals.KEYB_DOWN, (u'', scancode.UP, [])),
+               15: (signals.KEYB_DOWN, (u'a', 30, [])),
+               16: (signals.KEYB_DOWN, (u'\x01', 30, [scancode.CTRL])),
+               23: (signals.PEN_DOWN, (1, 1)), 24: (signals.STICK_DOWN, (0, 0)),
+               25: (signals.STICK_DOWN, (0, 1)), 27: (signals.STICK_DOWN, (1, 1))}[e]
         q.put(signals.Event(*sig))
         if idle and kind == 'occi':
             # the interpreter is idle (waiting for a command): the console polls the queue with no
-            # BASIC event handlers installed
-            # (everything still in the queue is consumed by this poll)
+            # BASIC event handlers installed (everything still in the queue is consumed by this poll)
             self.orig_check_events()
             for x in self.queued + [e]:
-                self.emit(K_OCC, x)
+                self.emit(K_KEYPRESS if x in USER_KEYS else K_OCC, x)
                 self.log.append(('occ', x, False))
             self.queued = []
         else:
@@ -275,7 +326,7 @@ class Replayer(object):
             top = self.last_stack[0][1] if self.last_stack else None
             self.log.append(('mark', MARKER_LINES[ln], top))
         if ln in LINE_ACTION:
-            self.pending_stmt = LINE_ACTION[ln]
+            self.pending_stmt = self.resolve(LINE_ACTION[ln])
         if ln == 100:
             # environment actions: they are seen by the interpreter at the statement boundary before
             # line 110 (a handler entered there comes back to line 100 and continues the schedule)
@@ -285,7 +336,8 @@ class Replayer(object):
                 self.pos += 1
                 self.do_env(k, e, False)
         elif ln == 110:
-            # the next program action; `ON A% GOTO` runs right after this hook, with no boundary between
+            # the next program action; the `ON x% GOTO` lines run right after this hook and nothing can
+            # become ready to fire at the boundaries between them
             self.observe()
             if self.pos < len(self.acts) and self.acts[self.pos][0] not in ENV_KINDS:
                 k, e = self.acts[self.pos]
@@ -296,16 +348,32 @@ class Replayer(object):
             else:
                 nxt = STMT_INDEX[('end', 0)]
                 self.finishing = True
-            self.session.set_variable('A%', nxt)
+            d, r = divmod(nxt - 1, DISPATCH)
+            for j in range(NDISPATCH):
+                self.session.set_variable('ABC'[j] + '%', r + 1 if j == d else 0)
         self.log.append(('endhook',))
 
+    def resolve(self, st):
+        """what the statement about to run amounts to: RENUM 6500,6600,1 with the tail block already at
+        6500 fails with Illegal function call before it does anything"""
+        if st[0] == 'renum2' and TAIL_ALT not in self.impl.program.line_numbers:
+            return ('err', 0)
+        return st
+
     def direct(self, st):
+        text = stmt_text(*st)
+        if st == ('gs', 27) and TAIL_LINE not in self.impl.program.line_numbers:
+            text = text.replace(str(TAIL_LINE), str(TAIL_ALT))
+        st = self.resolve(st)
         self.direct_stmt = st
         self.pending_stmt = None
-        out = self.session.execute(stmt_text(*st))
+        out = self.session.execute(text)
         self.output.append(out)
         if self.aborted:
             return
+        if 100 not in self.impl.program.line_numbers:
+            # NEW erased the dispatcher: type it in again (storing a line clears everything, like NEW)
+            self.session.execute(PROGRAM)
         if self.direct_stmt is not None:
             self.emit_parse_top([])
             self.emit_stmt(self.direct_stmt)
@@ -368,16 +436,20 @@ class Rig(object):
     fake clock, fake COM1 char_waiting level, counted check_events, step hook."""
 
     def __init__(self):
-        self.session = common.new_session()
+        self.dir = common.tmpdir('c38')
+        self.session = common.new_session(devices={'C': self.dir}, current_device='C:')
         s = self.session
         s.start()
         self.impl = s._impl
         s.execute(PROGRAM)
+        s.execute('SAVE "D"')          # for CHAIN "D",100
         self.cur = None
         self.uses = 0
         # nothing in /repo is edited: attributes of this Session's objects only
         self.impl.clock.get_time_ms = lambda: self.cur.clock.t
-        self.impl.files.get_device(b'COM1:').char_waiting = lambda: self.cur.com_level[0]
+        self.impl.files.get_device(b'COM1:').char_waiting = lambda: self.cur.com_level[29]
+        self.impl.files.get_device(b'COM2:').char_waiting = lambda: self.cur.com_level[30]
+        self.impl.sound.tones_waiting = lambda: self.cur.pq[0]
         queues = self.impl.queues
         self.orig_check_events = queues.check_events
 
@@ -394,7 +466,8 @@ class Rig(object):
         rep.impl = self.impl
         rep.it = self.impl.interpreter
         rep.clock = FakeClock()
-        rep.com_level = [False]
+        rep.com_level = {29: False, 30: False}
+        rep.pq = [0]
         rep.orig_check_events = self.orig_check_events
         if self.uses:
             inputs = self.impl.queues.inputs
@@ -404,10 +477,12 @@ class Rig(object):
                     inputs.task_done()
             except _q.Empty:
                 pass
+            if TAIL_LINE not in self.impl.program.line_numbers:
+                self.session.execute(stmt_text('renum2', 0))
             self.session.execute('100 REM')       # stores the line: clears stacks, variables, events, traps
             it = rep.it
             ev = self.impl.basic_events
-            fresh = (not ev.enabled and not ev.suspend_all and not it.run_mode and not it.gosub_stack
+            fresh = (100 in self.impl.program.line_numbers and not ev.enabled and not ev.suspend_all and not it.run_mode and not it.gosub_stack
                      and not it.error_handle_mode and not it.on_error and it.error_resume is None
                      and not self.impl.queues._basic_handlers
                      and all(h.gosub is None and not h.stopped and not h.triggered for h in ev.all))
@@ -419,9 +494,9 @@ class Rig(object):
             self.session.close()
         except Exception:
             pass
+        common.rmtree(self.dir)
 
 
-K38A = 'K38a'
 
 
 def mon_violation(log):
@@ -429,12 +504,18 @@ def mon_violation(log):
     Safety clauses are checked at every observed handler entry; the one liveness clause ("remembered and
     handled once after ON") is checked at statement boundaries of error-free runs."""
     mode = {}        # e -> 'OFF' | 'ON' | 'STOP'
-    pending = {}     # e -> True: an occurrence made while ON/STOP is unhandled; 'maybe': ... and then OFF
+    pending = {}     # e -> True: an occurrence made while ON/STOP is unhandled; 'maybe': allowed, not owed
     handler = {}     # e -> a handler line is defined
     frames = []      # open handler frames, bottom first: [event, ON executed since entry]
+    stuck = set()    # events whose open frame was dropped by RENUM: no RETURN will come, only ON helps
+    defined = set()  # user-defined keys that have a scan code
     in_error_handler = False
     had_error = False
     must_enter = set()
+    level = 0            # notes waiting in the music queue
+    prev_level = 0       # ... at the previous statement boundary
+    prev_play_mode = 'OFF'
+    interval = False     # a TIMER interval has been defined
 
     def m(e):
         return mode.get(e, 'OFF')
@@ -442,26 +523,31 @@ def mon_violation(log):
         t = it[0]
         if t == 'occ':
             _, e, live = it
-            if e == COM:
+            if e in COMS:
                 pending[e] = True       # level: a character is waiting
+            elif e in USER_KEYS and e not in defined:
+                pass                    # that key press is not the event KEY(e)
             elif live and m(e) != 'OFF':
                 pending[e] = True
         elif t == 'tick':
             # the TIMER period runs out: the TIMER event occurs now
-            if m(TIMER) != 'OFF':
+            if m(TIMER) != 'OFF' and interval:
                 pending[TIMER] = True
+        elif t == 'playq':
+            level = it[1]
         elif t == 'consume':
-            if it[1] == COM:
-                pending[COM] = False
+            if it[1] in COMS:
+                pending[it[1]] = False
         elif t == 'stmt':
             _, k, e = it
             if k == 'on':
                 mode[e] = 'ON'
+                stuck.discard(e)
                 for fr in frames:
                     if fr[0] == e:
                         fr[1] = True
             elif k == 'off':
-                if e != COM:            # exception stated with the theorems: COM(n) OFF does not switch off
+                if e not in COMS:       # exception stated with the theorems: COM(n) OFF does not switch off
                     mode[e] = 'OFF'
                     if pending.get(e):
                         pending[e] = 'maybe'
@@ -470,13 +556,26 @@ def mon_violation(log):
                     mode[e] = 'STOP'
             elif k == 'gs':
                 handler[e] = True
+                interval = interval or e == TIMER      # ON TIMER(x) GOSUB defines the interval
             elif k == 'gs0':
                 handler[e] = False
-            elif k == 'run':
-                mode, pending, handler = {}, {COM: pending.get(COM, False)}, {}
+                interval = interval or e == TIMER
+            elif k == 'defkey':
+                defined.add(e)
+            elif k in ('run', 'chain', 'clear', 'new'):
+                # all traps are switched off and forgotten (the COM input buffer is not part of that)
+                mode, handler = {}, {}
+                pending = dict((c, pending.get(c, False)) for c in COMS)
                 frames = []
+                stuck = set()
+                defined = set()
+                interval = False
                 in_error_handler = False
                 had_error = False
+            elif k in ('renum', 'renum2'):
+                # the subroutine stack is dropped: the open trap routines can never RETURN
+                stuck |= set(fr[0] for fr in frames)
+                frames = []
             elif k in ('res', 'resto', 'end'):
                 in_error_handler = False
         elif t == 'line':
@@ -484,12 +583,18 @@ def mon_violation(log):
                 in_error_handler = True
                 had_error = True
         elif t == 'boundary':
+            # PLAY(n): the event occurs when the number of notes waiting drops below n (seen at the
+            # granularity of statements)
+            if handler.get(PLAY) and prev_level >= PLAY_N > level:
+                if m(PLAY) != 'OFF':
+                    pending[PLAY] = True if prev_play_mode != 'OFF' else (pending.get(PLAY) or 'maybe')
+            prev_level = level
+            prev_play_mode = m(PLAY)
             must_enter = set()
-            if not had_error:
-                for e in TRACKED:
-                    if (m(e) == 'ON' and pending.get(e) is True and handler.get(e)
-                            and not any(fr[0] == e and not fr[1] for fr in frames)):
-                        must_enter.add(e)
+            for e in TRACKED:
+                if (m(e) == 'ON' and pending.get(e) is True and handler.get(e) and e not in stuck
+                        and not any(fr[0] == e and not fr[1] for fr in frames)):
+                    must_enter.add(e)
         elif t == 'enter':
             _, e, rm = it
             if not rm:
@@ -502,13 +607,15 @@ def mon_violation(log):
                 return 'handler of event %d entered while the event is STOPped' % e
             if not pending.get(e):
                 if e == TIMER:
-                    return K38A + ': TIMER handler entered although no period ran out while TIMER was ON/STOPped'
+                    return 'TIMER handler entered although no period ran out while TIMER was ON/STOPped (D38a)'
+                if e == PLAY:
+                    return 'PLAY handler entered although the queue did not drop below n while PLAY was ON/STOPped (D38a)'
                 return 'handler of event %d entered without an occurrence made while it was ON/STOPped' % e
             if any(fr[0] == e and not fr[1] for fr in frames):
                 return 'handler of event %d re-entered before its RETURN (no ON in between)' % e
             if not handler.get(e):
                 return 'handler of event %d entered but no handler is defined' % e
-            if e != COM:
+            if e not in COMS:
                 pending[e] = False
             frames.append([e, False])
             must_enter.discard(e)
@@ -516,11 +623,11 @@ def mon_violation(log):
             for i in range(len(frames) - 1, -1, -1):
                 if frames[i][0] == it[1]:
                     del frames[i]
+                    # GW-BASIC manual: RETURN from a trap routine does an automatic event ON unless the
+                    # routine executed an explicit event OFF; so a STOP executed inside the routine ends here
+                    if m(it[1]) == 'STOP':
+                        mode[it[1]] = 'ON'
                     break
-            # GW-BASIC manual: RETURN from a trap routine does an automatic event ON unless the routine
-            # executed an explicit event OFF; so a STOP executed inside the routine ends here
-            if m(it[1]) == 'STOP':
-                mode[it[1]] = 'ON'
         elif t == 'mark':
             _, e, top = it
             if top != e:
@@ -582,7 +689,9 @@ class C38(core.Check):
             S + [('on', 1), ('start', 0), ('stop', 1), ('occ', 1), ('off', 1), ('on', 1), ('ret', 0)],
             # two events at one boundary, nested returns, RETURN n
             S + [('on', 1), ('on', 2), ('start', 0), ('occ', 1), ('occ', 2), ('retto', 0), ('ret', 0), ('ret', 0)],
-            # timer: period elapses while OFF, noticed after ON
+            # D38a: the timer period runs out while OFF: lost; TIMER ON before ON TIMER GOSUB
+            [('gs', 21), ('start', 0), ('occ', 21), ('on', 21)],
+            [('on', 21), ('gs', 21), ('start', 0)],
             [('gs', 21), ('start', 0), ('occ', 21), ('on', 21), ('ret', 0), ('occ', 21), ('stop', 21),
              ('occ', 21), ('on', 21)],
             # COM: level triggered, OFF does not switch off
@@ -594,6 +703,32 @@ class C38(core.Check):
             S + [('on', 1), ('start', 0), ('ret', 0), ('res', 0), ('occ', 1), ('start', 0), ('err', 0), ('onerr0', 0)],
             # direct-mode GOSUB / error / RESUME restore direct mode
             S + [('on', 1), ('gosub', 0), ('occ', 1), ('ret', 0), ('ret', 0), ('err', 0), ('res', 0)],
+            # function, cursor and user-defined keys; the definition is forgotten by RUN
+            [('gs', 5), ('gs', 11), ('gs', 15), ('gs', 16), ('on', 5), ('on', 11), ('on', 15), ('on', 16),
+             ('start', 0), ('occ', 15), ('occ', 16), ('defkey', 15), ('occ', 15), ('occ', 16), ('ret', 0),
+             ('defkey', 16), ('occ', 16), ('occ', 5), ('occ', 11), ('ret', 0), ('ret', 0), ('ret', 0),
+             ('run', 0), ('gs', 15), ('on', 15), ('occ', 15)],
+            # the other joystick buttons and the second serial port
+            [('gs', 25), ('gs', 27), ('gs', 30), ('on', 25), ('on', 27), ('on', 30), ('start', 0), ('occ', 25),
+             ('occ', 27), ('occ', 24), ('ret', 0), ('ret', 0), ('occ', 30), ('ret', 0), ('con', 30), ('ret', 0)],
+            # PLAY(2): the queue drops below 2 while ON; while STOPped (remembered)
+            [('gs', 22), ('on', 22), ('start', 0), ('playq', 3), ('playq', 1), ('ret', 0), ('playq', 4),
+             ('stop', 22), ('playq', 0), ('on', 22), ('ret', 0)],
+            # D38a: the queue drops while PLAY is OFF: lost
+            [('gs', 22), ('on', 22), ('start', 0), ('playq', 3), ('off', 22), ('playq', 0), ('on', 22)],
+            # RENUM / CLEAR / NEW / CHAIN inside a handler
+            S + [('on', 1), ('start', 0), ('occ', 1), ('occ', 1), ('renum', 0), ('start', 0), ('ret', 0),
+                 ('on', 1), ('ret', 0)],
+            # RENUM moves the handler of STRIG(6) while that trap is OFF (remapped through BasicEvents.all)
+            [('gs', 27), ('start', 0), ('renum', 0), ('start', 0), ('on', 27), ('occ', 27), ('ret', 0),
+             ('renum2', 0), ('renum2', 0), ('start', 0), ('gs', 27), ('occ', 27), ('ret', 0)],
+            S + [('on', 1), ('on', 2), ('start', 0), ('occ', 1), ('occ', 2), ('clear', 0), ('occ', 1), ('ret', 0),
+                 ('gs', 1), ('on', 1), ('occ', 1), ('ret', 0)],
+            S + [('on', 1), ('start', 0), ('occ', 1), ('occ', 1), ('new', 0), ('start', 0), ('gs', 1), ('on', 1),
+                 ('occ', 1)],
+            S + [('on', 1), ('start', 0), ('occ', 1), ('occ', 1), ('chain', 0), ('occ', 1), ('gs', 1), ('on', 1),
+                 ('occ', 1), ('ret', 0)],
+            S + [('on', 1), ('start', 0), ('err', 0), ('occ', 1), ('clear', 0), ('on', 1), ('gs', 1), ('occ', 1)],
         ]
         return [{'acts': [list(a) for a in x]} for x in c]
 
@@ -608,20 +743,30 @@ class C38(core.Check):
         for e in events:
             if rng.random() < 0.5:
                 acts.append(['on', e])
+            if e in USER_KEYS and rng.random() < 0.7:
+                acts.append(['defkey', e])
         if rng.random() < 0.85:
             acts.append(['start', 0])
         rng.shuffle(acts) if rng.random() < 0.2 else None
         weights = [('occ', 30), ('occi', 3), ('on', 10), ('off', 6), ('stop', 8), ('ret', 14), ('gosub', 3),
                    ('retto', 2), ('err', 5), ('res', 5), ('resto', 1), ('end', 2), ('start', 4), ('run', 1),
-                   ('gs', 2), ('gs0', 1), ('onerr', 1), ('onerr0', 1), ('con', 2)]
+                   ('gs', 2), ('gs0', 1), ('onerr', 1), ('onerr0', 1), ('con', 2), ('clear', 1), ('new', 1),
+                   ('renum', 2), ('renum2', 2), ('chain', 1)]
+        if PLAY in events:
+            weights.append(('playq', 12))
+        if any(e in USER_KEYS for e in events):
+            weights.append(('defkey', 4))
         kinds = [k for k, w in weights for _ in range(w)]
         for _ in range(n):
             k = rng.choice(kinds)
-            if k in EV_KINDS or k in ENV_KINDS:
-                e = rng.choice(events)
-                if k == 'con':
-                    e = COM
-                acts.append([k, e])
+            if k == 'playq':
+                acts.append([k, rng.choice([0, 0, 1, 2, 3, 5])])
+            elif k == 'defkey':
+                acts.append([k, rng.choice([e for e in events if e in USER_KEYS])])
+            elif k == 'con':
+                acts.append([k, rng.choice(COMS)])
+            elif k in EV_KINDS or k in ENV_KINDS:
+                acts.append([k, rng.choice(events)])
             else:
                 acts.append([k, 0])
         return acts
@@ -639,10 +784,12 @@ class C38(core.Check):
         out = []
         for i in range(n):
             r = rng.random()
-            if r < 0.45:
+            if r < 0.3:
                 events = [1, 2]
-            elif r < 0.7:
+            elif r < 0.45:
                 events = [1, 2, 21]
+            elif r < 0.6:
+                events = [rng.choice([1, 5, 11, 15, 16]), PLAY]
             else:
                 events = rng.sample(TRACKED, rng.randrange(1, 5))
             acts = self.rand_schedule(rng, events, rng.choice([4, 8, 12, 16, 24]))
@@ -722,36 +869,5 @@ class C38(core.Check):
 
     def describe(self, case):
         return case
-
-    def shrink_candidates(self, case):
-        """smaller schedules that fail for the same kind of reason (a shrink must not slide from a new
-        violation into the known finding K38a or back)"""
-        try:
-            base = self.oracle(case, self.impl(case)) or ''
-        except Exception:
-            return
-        for cand in core.Check.shrink_candidates(self, case):
-            try:
-                w = self.oracle(cand, self.impl(cand))
-            except Exception:
-                continue
-            if w and w.startswith(K38A) == base.startswith(K38A):
-                yield cand
-
-    # ---- known finding K38a (TIMER period that runs out while OFF is not lost)
-    def known_match(self, finding, case, out):
-        if finding.get('id') != 'K38a' or out is None:
-            return False
-        why = self.oracle(case, out)
-        return bool(why) and why.startswith(K38A)
-
-    def known_rerun(self, finding):
-        if finding.get('id') != 'K38a':
-            return True
-        case = {'acts': finding['witness']['acts']}
-        out = self.impl(case)
-        why = self.oracle(case, out)
-        return bool(why) and why.startswith(K38A) and any(1000 + TIMER == x for x in out)
-
 
 CHECK = C38
